@@ -535,6 +535,110 @@ pub fn c09(s: &State) -> Vec<Failure> {
 // ------------------------------------------------------------------------------------
 // C10: double-ended iterators, every pull pattern
 // ------------------------------------------------------------------------------------
+/// C02 (observer): under every front/back pull pattern the double-ended iterators stay finite
+/// and yield no node twice. (Order and completeness are C10's business, not checked here.)
+pub fn c02_mixed_pulls(s: &State) -> Vec<Failure> {
+    let mut out = Vec::new();
+    let n = s.arena.count();
+    for x in s.model.live_slots() {
+        let id = s.cur[x];
+        let class = s.model.position(x);
+        for which in 0..3 {
+            let name = ["children", "preceding_siblings", "following_siblings"][which];
+            let plen = n + 2;
+            for pat in 0u32..(1 << plen) {
+                let r = guarded(|| {
+                    macro_rules! run {
+                        ($it:expr) => {{
+                            let mut it = $it;
+                            let mut got = Vec::with_capacity(plen);
+                            for k in 0..plen {
+                                got.push(if pat >> k & 1 == 0 { it.next() } else { it.next_back() });
+                            }
+                            got
+                        }};
+                    }
+                    match which {
+                        0 => run!(id.children(&s.arena)),
+                        1 => run!(id.preceding_siblings(&s.arena)),
+                        _ => run!(id.following_siblings(&s.arena)),
+                    }
+                });
+                if let Ok(got) = r {
+                    let mut ids: Vec<NodeId> = got.iter().flatten().copied().collect();
+                    let total = ids.len();
+                    ids.sort();
+                    ids.dedup();
+                    if ids.len() != total || total > n {
+                        let pat_txt: String = (0..plen).map(|k| if pat >> k & 1 == 0 { 'F' } else { 'B' }).collect();
+                        out.push(fail(C02, "iter-finite", false, name, class,
+                            if ids.len() != total { "yields-node-twice" } else { "does-not-terminate" },
+                            format!("{name}({}) pulled {pat_txt} (F=next, B=next_back) yields {:?}; arena: {}", x + 1, got.iter().map(|i| fmt_id(*i)).collect::<Vec<_>>(), fmt_obs(&s.obs))));
+                        break;
+                    }
+                }
+            }
+        }
+    }
+    out
+}
+
+/// C09 (observer): an iterator yields the documented sequence *and nothing more*: once one
+/// end has delivered all of it, the other end has nothing left either.
+pub fn c09_nothing_more(s: &State) -> Vec<Failure> {
+    let mut out = Vec::new();
+    let e = Expected { m: &s.model, cur: &s.cur };
+    for x in s.model.live_slots() {
+        let id = s.cur[x];
+        let class = s.model.position(x);
+        for which in 0..3 {
+            let (name, fwd) = match which {
+                0 => ("children", e.children(x)),
+                1 => ("preceding_siblings", e.preceding(x)),
+                _ => ("following_siblings", e.following(x)),
+            };
+            let l = fwd.len();
+            for front_first in [true, false] {
+                let r = guarded(|| {
+                    macro_rules! run {
+                        ($it:expr) => {{
+                            let mut it = $it;
+                            let mut main = Vec::new();
+                            for _ in 0..l {
+                                main.push(if front_first { it.next() } else { it.next_back() });
+                            }
+                            let extra = [
+                                if front_first { it.next_back() } else { it.next() },
+                                if front_first { it.next() } else { it.next_back() },
+                            ];
+                            (main, extra)
+                        }};
+                    }
+                    match which {
+                        0 => run!(id.children(&s.arena)),
+                        1 => run!(id.preceding_siblings(&s.arena)),
+                        _ => run!(id.following_siblings(&s.arena)),
+                    }
+                });
+                if let Ok((main, extra)) = r {
+                    let all: Vec<NodeId> = main.iter().flatten().copied().collect();
+                    let mut want = fwd.clone();
+                    if !front_first {
+                        want.reverse();
+                    }
+                    // the one-directional sequences themselves are judged by the main C09 judge
+                    if all == want && (extra[0].is_some() || extra[1].is_some()) {
+                        out.push(fail(C09, "traversal", false, name, class, "yields-more-than-the-sequence",
+                            format!("{name}({}) delivered its whole sequence [{}] from the {} and then still yields {:?} from the other end; arena: {}", x + 1, ids_txt(&all),
+                                if front_first { "front" } else { "back" }, extra.iter().map(|i| fmt_id(*i)).collect::<Vec<_>>(), fmt_obs(&s.obs))));
+                    }
+                }
+            }
+        }
+    }
+    out
+}
+
 pub fn c10(s: &State, pulls_counter: &mut u64) -> Vec<Failure> {
     let mut out = Vec::new();
     let e = Expected { m: &s.model, cur: &s.cur };
@@ -870,7 +974,7 @@ fn product(s1: &State, s2: &State, depth: usize, out: &mut Vec<Failure>, steps: 
     if depth == 0 || !out.is_empty() {
         return;
     }
-    let prof = crate::explore::Profile { writes: false, value_ops: false, tree_ops: false };
+    let prof = crate::explore::Profile::default();
     let ops = enabled_ops(s1, 3, 4, &prof);
     let jc = JudgeCfg::default();
     for op in ops {
@@ -1059,6 +1163,7 @@ pub fn judge_state(
     let t = cfg.target;
     if t & C02 != 0 {
         out.extend(c02_iterators(s));
+        out.extend(c02_mixed_pulls(s));
     }
     if t & C06 != 0 {
         out.extend(c06(s));
@@ -1068,6 +1173,7 @@ pub fn judge_state(
     }
     if t & C09 != 0 {
         out.extend(c09(s));
+        out.extend(c09_nothing_more(s));
     }
     if t & C10 != 0 {
         out.extend(c10(s, &mut ctr.pulls));
